@@ -106,7 +106,10 @@ class Host:
             e.update(env)
         self.errpath = os.path.join(scratch, "stderr.%d" % id(self))
         self.errf = open(self.errpath, "wb")
-        args = [SIMHOST, conf_path] + ([extra_arg] if extra_arg else [])
+        # relative path: the daemon prints the file name in parse errors and the
+        # history hash must not depend on the scratch directory's name
+        rel = os.path.relpath(conf_path, cwd or scratch)
+        args = [SIMHOST, rel] + ([extra_arg] if extra_arg else [])
         self.p = subprocess.Popen(args, preexec_fn=pre, close_fds=False, stdin=subprocess.DEVNULL,
                                   stdout=subprocess.DEVNULL, stderr=self.errf, env=e,
                                   cwd=cwd or scratch)
